@@ -67,7 +67,7 @@ def lattice_defn(points):
     xdoc.add_param(d, "I16B", copy.deepcopy(it))          # a second channel with an equal type (shared instances on the "shared" route)
     fenc = g("FloatDataEncoding.encoding", "IEEE754")
     xdoc.add_param(d, "FL", xdoc.ptype_num("float", xdoc.numeric_enc("flt", 32, order=g("NumericDataEncoding.byteOrder", "msb"),
-                                                                      fmt="ieee" if fenc == "IEEE754" else "mil1750a")))
+                                                                      fmt="ieee" if fenc == "IEEE754" else "mil1750a"), unit=g("Unit", "")))
     adj = g("LinearAdjustment", "8x+0")
     slope, icpt = {"none": (None, 0), "8x+0": (8, 0), "8x-8": (8, -8), "0x+16": (0, 16), "1x+3": (1, 3), "1x+0": (1, 0)}[adj]
     rcal = g("ParameterInstanceRef.useCalibratedValue", "true") == "true"
@@ -78,7 +78,7 @@ def lattice_defn(points):
                                          {"items": [cmp("N", ">=", 3), cmp("SEQF", "!=", 9, False)], "val": 16},
                                          {"items": [cmp("N", "==", 0), cmp("APID", "==", 5)], "val": 24}]}
     bl = {"dynamic": ls, "fixed": {"k": "fixed", "n": 16}, "lookup": look1, "lookup-lists": look2}[g("BinaryLength", "dynamic")]
-    xdoc.add_param(d, "BLOB", xdoc.ptype_sb({"k": "bin", "len": bl, "delim": WHOLE, "codec": ""}))
+    xdoc.add_param(d, "BLOB", xdoc.ptype_sb({"k": "bin", "len": bl, "delim": WHOLE, "codec": ""}, unit=g("Unit", "")))
     codec = g("StringDataEncoding.encoding", "UTF-8")
     lead, term = g("LeadingSize", "none"), g("TerminationChar", "none")
     if term == "5800":
@@ -90,7 +90,7 @@ def lattice_defn(points):
         delim = {"k": "lead", "tc": [], "tag": int(lead), "unit": 1}
     elif term != "none":
         delim = {"k": "term", "tc": list(bytes.fromhex(term)), "tag": 0, "unit": 2 if len(term) == 4 else 1}
-    xdoc.add_param(d, "TXT", xdoc.ptype_sb({"k": "str", "len": {"k": "fixed", "n": 48}, "delim": delim, "codec": codec}))
+    xdoc.add_param(d, "TXT", xdoc.ptype_sb({"k": "str", "len": {"k": "fixed", "n": 48}, "delim": delim, "codec": codec}, unit=g("Unit", "")))
     sl = {"dynamic": dict(ls), "lookup": look1, "lookup-lists": look2}[g("StringLength", "dynamic")]
     xdoc.add_param(d, "TXT2", xdoc.ptype_sb({"k": "str", "len": sl, "delim": WHOLE, "codec": "US-ASCII"}))
     tcal = g("TimeEncoding.scale/offset", "none")
@@ -103,7 +103,7 @@ def lattice_defn(points):
     if g("ReferenceTime.OffsetFrom", ""):
         tt["offsetFrom"] = g("ReferenceTime.OffsetFrom", "")
     xdoc.add_param(d, "TM", tt)
-    en = xdoc.ptype_num("enum", xdoc.numeric_enc("int", 2), enum=[{"raw": crit.tv_int(v), "label": f"L{v}"} for v in (0, 1, 3)])
+    en = xdoc.ptype_num("enum", xdoc.numeric_enc("int", 2), enum=[{"raw": crit.tv_int(v), "label": f"L{v}"} for v in (0, 1, 3)], unit=g("Unit", ""))
     xdoc.add_param(d, "EN", en)
     xdoc.add_container(d, "ROOT", [("p", nm) for nm, _ in HDR], abstract=True, short=desc_s, long=desc_l)
     op = g("Comparison.comparisonOperator", "==")
@@ -126,7 +126,9 @@ def lattice_defn(points):
           "and-of-two-ors": {"k": "and", "conds": [], "groups": [{"k": "or", "conds": [pp, pq], "groups": []}, {"k": "or", "conds": [pl, pq], "groups": []}]},
           "or-of-two-ands": {"k": "or", "conds": [], "groups": [{"k": "and", "conds": [pp, pl], "groups": []}, {"k": "and", "conds": [pq, pl], "groups": []},
                                                                  {"k": "and", "conds": [pp, pq], "groups": []}]}}[shape]
-    xdoc.add_param(d, "BXV", uint(8))
+    bxv = uint(8)
+    bxv["unit"] = g("Unit", "")
+    xdoc.add_param(d, "BXV", xdoc.ptype_num("bool", xdoc.numeric_enc("int", 8), unit=g("Unit", "")) if g("Unit", "") else bxv)
     # fields that are not a whole number of bytes keep their declared byte order too
     xdoc.add_param(d, "ODD12", uint(12, g("IntegerDataEncoding.encoding", "unsigned"), g("NumericDataEncoding.byteOrder", "msb")))
     xdoc.add_param(d, "ODD4", uint(4, "unsigned", g("NumericDataEncoding.byteOrder", "msb")))
